@@ -232,23 +232,23 @@ class C07(Prop):
     id = "C07"
     props_file = "Props/C07.v"
     design_ref = "DESIGN.md section 4, C07"
-    technique = "Rocq proof (rigid-motion invariance of every per-object / per-pair fact the pipeline reads, composed from the C06/C09/C18 proofs, plus ==-extensionality of filter, matcher, TP decision and AP); in-Coq correspondence on two renderings of the same scenes"
+    technique = "Rocq proof (rigid-motion invariance of every per-object / per-pair fact the pipeline reads, composed from the C06/C09/C18 proofs, plus ==-extensionality of filter, matcher, TP decision, AP and the CLEAR accumulation); in-Coq correspondence on two renderings of the same scenes"
     level_text = ("Theorems (Props/C07.v, closed under the global context) for ANY ego pose (unit quaternion for positions; yaw+translation for boxes): the "
                   "ego-relative coordinates recovered through the inverse transform are the ego-frame coordinates; centre distance, plane distance (as the "
                   "code computes it in the map frame), height intersection and the heading weight are equal in both renderings; IoU is, given invariance of "
                   "the intersection area; the range-filter predicate, the two-stage matcher, the TP decision and AP/APH depend on those numbers only up to "
-                  "==, so all discrete outcomes coincide and all scores are equal. Tie: the same generated scenes (detection and tracking, random ego pose) "
+                  "==, and so do the CLEAR counters, MOTA and MOTP for every history; so all discrete outcomes coincide and all scores are equal. Tie: the same generated scenes (detection and tracking, random ego pose) "
                   "are evaluated by the real manager in the ego frame and in the map frame; the exact geometry of both renderings is evaluated in Coq and "
                   "compared with what the implementation computed in each frame, and the two executions are compared with each other on every outcome.")
     level_note = ("Exact arithmetic over Q vs binary64: agreement within 1e-7 relative (plane distance is rounded to 1e-10 by the code). Scenes are on the "
                   "k/8 lattice with bounds and thresholds off the lattice and unique dyadic jitter, so no decision is within tolerance of its boundary "
-                  "(the property's precondition). IoU invariance is conditional on shapely's intersection area (C06 trusted base). CLEAR invariance follows "
-                  "from equal per-pair scores and decisions by the C05 model; it is validated on the two executions, not restated as a theorem.")
+                  "(the property's precondition). IoU invariance is conditional on shapely's intersection area (C06 trusted base). CLEAR invariance is the theorem "
+                  "C07_clear_invariant about the C05 model (identical counters, equal MOTA/MOTP for histories whose per-pair scores are equal as numbers) and is "
+                  "additionally observed on the two executions.")
     rule = ("32 (quick) / 400 (thorough) scenes of 1-4 frames, 0-7 GT per frame, random rational ego pose (13 yaws x lattice translations), 4 critical filters x 3 "
             "pass/fail thresholds, detection and tracking (persistent tracks with identity swaps); non-trivial = at least two object results")
     assumptions = ["decisions at least 1e-5 away from their boundaries by construction of the generator", "shapely intersection area invariant under rigid motion"]
-    not_proved = ["IoU invariance unconditionally (needs the exact polygon intersection: C06)", "CLEAR MOT invariance as a theorem (validated)",
-                  "roll/pitch in the ego pose for box-level facts (positions only)"]
+    not_proved = ["IoU invariance unconditionally (needs the exact polygon intersection: C06)",                   "roll/pitch in the ego pose for box-level facts (positions only)"]
 
     def correspondences(self):
         return [RenderingCorr()]
